@@ -220,6 +220,37 @@ def trace_lines(e):
     return out
 
 
+def interpret_again(ctx, it, r, text, want_pos, want_trace, name):
+    """the same program text once more on the same interpreter, under another file name and/or moved down by blank
+    lines: positions are those of this text in this file, not of an earlier reading"""
+    import ckl.functions
+    k = r.choice([0, 0, 1, 2, 5])
+    fname2 = r.choice([FNAME, "second.ckl", "dir/third.ckl"])
+    if k == 0 and fname2 == FNAME:
+        fname2 = "second.ckl"
+    text2 = r.choice(["\n", "\r\n", " \n"]) * k + text + r.choice(["", "\n", "  "])
+    env = ckl.functions.Environment()
+    o = observe(lambda: it.interpret(text2, fname2, env), 500000)
+    ctx.count("reinterpretations")
+    ctx.case(("again", k, fname2, text), nontrivial=True)
+    if o.kind != "rte":
+        ctx.violation("C20:again:fault-not-raised:" + name, "%r (second reading) -> %s" % (text2[:300], o.kind), {"text": text2})
+        return
+    pos = o.exc.pos
+    if pos is None or getattr(pos, "filename", None) != fname2:
+        ctx.violation("C20:again:runtime-error-filename", "the text was read before as %s and now as %s: error position is %s" % (FNAME, fname2, pos), {"text": text2})
+    elif pos.line != want_pos + k:
+        ctx.violation("C20:again:runtime-error-line", "second reading moved down by %d lines: fault on line %d reported on line %r in %r" % (
+            k, want_pos + k, pos.line, text2[:300]), {"text": text2})
+    if want_trace is not None:
+        tl = trace_lines(o.exc)
+        if [ln for fn, ln in tl] != [w + k for w in want_trace]:
+            ctx.violation("C20:again:stacktrace-lines", "second reading moved down by %d lines: call lines %r, stack trace says %r" % (
+                k, [w + k for w in want_trace], tl), {"text": text2})
+        elif any(fn != fname2 for fn, ln in tl):
+            ctx.violation("C20:again:stacktrace-filename", "second reading as %s: stack trace names %r" % (fname2, tl), {"text": text2})
+
+
 def run_faults(spec, ctx):
     import ckl.functions
     r = ctx.rng
@@ -252,6 +283,8 @@ def run_faults(spec, ctx):
                 ctx.violation("C20:runtime-error-filename:" + name, "error position is %r" % (pos,), {"text": text})
             elif pos.line != want:
                 ctx.violation("C20:runtime-error-line:%s" % name, "fault on line %d reported on line %r in %r" % (want, pos.line, text[:300]), {"text": text})
+            elif r.random() < 0.5:
+                interpret_again(ctx, it, r, text, want, None, name)
         elif kind == 1:
             # division by zero three calls deep; each function body and each call on a known line
             defs = [["def", "f2", "(", "x", ")", "1", "/", "x"], ["def", "f1", "(", "x", ")", "f2", "(", "x", ")"]]
@@ -278,6 +311,8 @@ def run_faults(spec, ctx):
                 ctx.violation("C20:stacktrace-lines", "call lines %r, stack trace says %r in %r" % (want, got, text[:300]), {"text": text})
             elif any(f != FNAME for f in files):
                 ctx.violation("C20:stacktrace-filename", "stack trace names files %r" % (files,), {"text": text})
+            elif r.random() < 0.5:
+                interpret_again(ctx, it, r, text, want[0], want, "nested-division")
         else:
             sname, mk = r.choice(SYNTAX_FAULTS)
             ft, off = mk()
@@ -418,7 +453,7 @@ def run_shard(spec, ctx):
 def finalize(merged, tier):
     c = merged["counters"]
     reasons = []
-    for k in ("token_positions", "runtime_fault_programs", "nested_call_programs", "syntax_fault_programs", "module_programs", "cli_runs"):
+    for k in ("token_positions", "runtime_fault_programs", "nested_call_programs", "syntax_fault_programs", "module_programs", "cli_runs", "reinterpretations"):
         if c.get(k, 0) == 0:
             reasons.append("monitor counter %s is zero" % k)
     if c.get("token_streams_misaligned", 0) + c.get("lexer_rejected", 0) > 0.2 * max(1, c.get("token_streams", 0)):
